@@ -154,6 +154,14 @@ func decodeStruct(p Paragraph, into reflect.Value) error {
 	paragraphType := reflect.TypeOf(Paragraph{})
 	unmarshallableType := reflect.TypeOf((*Unmarshallable)(nil)).Elem()
 
+	if into.Type() == paragraphType {
+		/* The target is a Paragraph itself (Unmarshal into a Paragraph or a
+		 * []Paragraph): it gets the paragraph, not a walk over the Go fields
+		 * Values and Order. */
+		into.Set(reflect.ValueOf(p))
+		return nil
+	}
+
 	/* Right, now, we're going to decode a Paragraph into the struct */
 
 	for i := 0; i < into.NumField(); i++ {
